@@ -19,7 +19,7 @@ class Kill(BaseException):
 
 
 class Sched:
-    def __init__(self, n, chooser, max_steps=4000, wall=20.0, step_wall=5.0):
+    def __init__(self, n, chooser, max_steps=4000, wall=20.0, step_wall=15.0):
         self.n = n
         self.chooser = chooser            # f(cands:list[int], last:int|None) -> int
         self.max_steps = max_steps
